@@ -25,23 +25,26 @@ META = {
             "exhaustively explored extracted model admits; monitors (harness-side ownership map page -> holder, "
             "double free, conservation at quiescence, destructor drains, recycler count, no creation in strict "
             "mode, hang detection) check the property text directly on every run.",
-    "note": "16 theorems, all closed under the global context: c17_single_owner, c17_conservation(+_at_quiescence), "
-            "c17_dtor_returns_cache, c17_cache_bounded_at_quiescence, c17_claims_fit_the_cache, "
+    "note": "20 theorems, all closed under the global context: c17_single_owner, c17_conservation(+_at_quiescence), "
+            "c17_dtor_returns_cache, c17_cache_bounded (EVERY reachable state) and _at_quiescence, "
+            "c17_callbacks_advance_cursor, c17_segments_partition_the_claim, c17_claims_fit_the_cache, "
             "c17_compensates_when_starved, c17_strict_never_creates, c17_strict_bound, c17_blocked_pop_resumes, "
-            "c17_blocked_pop_means_empty, c17_recycle_once, c17_overflow_destroyed, c17_batch_conservation, "
-            "c17_counting_exact, c17_batch_dtor_returns_buffers.  PARTIAL: (1) queue abstraction - the "
+            "c17_blocked_pop_means_empty, c17_strict_no_deadlock, c17_recycle_once, c17_overflow_destroyed, "
+            "c17_batch_conservation, c17_counting_exact, c17_batch_dtor_returns_buffers.  The model invokes the "
+            "allocator callbacks once per contiguous ring segment with the caller's page-array cursor (copy source / "
+            "destination, cursor advance, tail loops, round split, fits test and both segment lengths all regenerated "
+            "from page_allocator.cpp / bounded_queue.hpp), capacity = 2^k, k < 64.  PARTIAL: (1) queue abstraction - the "
             "slot/version/futex protocol of ConcurrentBoundedQueue is C01's subject; here a ring slot at version 2r / "
-            "2r+1 is the ticket cell 'free' / 'full', futex parking is 'not enabled', the round split of "
-            "pop_n/push_n follows (index/capacity+1)*capacity (C01 bq_round ties it to the source expression); "
-            "(2) liveness is proved as enabledness (blocked pop enabled once its cell is full, a starved call selects "
-            "the reverse callback) and checked by hang detection on the real code - termination under fairness is not "
-            "mechanised; (3) 'cached <= capacity' is proved at quiescent states only; (4) c17_recycle_once holds in the "
-            "model by construction (recycler = first step of push), the real recycler count is a monitor.  Found and "
-            "fixed through this check: ObjectPool::Deleter::operator= without return (0439593), BatchPageAllocator "
-            "default batch size unusable (a7cd600).  Trusted: Coq kernel; translator; extraction (ExtrOcamlBasic) + "
-            "OCaml explorer; macro shim and dsched (sequentially consistent interleavings only); upstream allocator / "
-            "creator freshness, EnumerableThreadLocal (one Slot per thread) and ConcurrentAdder are modelled, not "
-            "verified.",
+            "2r+1 is the ticket cell 'free' / 'full' and futex parking is 'not enabled'; (2) liveness is proved as "
+            "enabledness / absence of stuck states (blocked pop enabled once its cell is full and blocked only when the "
+            "pool is empty, no stuck state of a strict pool while outstanding < injected, a starved call selects the "
+            "reverse callback) and checked by hang detection on the real code - termination under fairness is not "
+            "mechanised; (3) c17_recycle_once holds in the model by construction (recycler = first step of push), the "
+            "real recycler count is a monitor.  Found and fixed through this check: ObjectPool::Deleter::operator= "
+            "without return (0439593), BatchPageAllocator default batch size unusable (a7cd600).  Trusted: Coq kernel; "
+            "translator; extraction (ExtrOcamlBasic) + OCaml explorer; macro shim and dsched (sequentially consistent "
+            "interleavings only); upstream allocator / creator freshness, EnumerableThreadLocal (one Slot per thread) "
+            "and ConcurrentAdder are modelled, not verified.",
 }
 
 MON_C = ["owner", "known", "dblfree", "freeheld", "conserve", "dtor", "cachecap"]
@@ -455,7 +458,7 @@ def main(argv):
         "queue abstraction: ring slot versions <-> ticket cells (C01 proves the slot protocol)",
         "modelled not verified: upstream freshness, EnumerableThreadLocal, ConcurrentAdder, operator new"]
     chk.assumptions = ["sequentially consistent interleavings at atomic-operation granularity",
-                       "queue capacity >= 1 (bit_ceil), callers deallocate only pages they hold, a strict pool is not "
+                       "queue capacity 2^k with k < 64 (bit_ceil), callers deallocate only pages they hold, a strict pool is not "
                        "injected beyond its capacity, BatchPageAllocator batch size >= 1",
                        "ticket counters and slot versions do not wrap (unbounded naturals)"]
     chk.finish("proof")
